@@ -26,9 +26,10 @@ finding key = <event>/<argument class>/<symptom>; when the text already carried 
 Measured (tree with the text.py defects fixed, i.e. nothing pruned; machine shared
 with ~100 runnable processes, so CPU seconds are the meaningful number):
   quick     2.81 M transitions, 1.08 M states (sum over 88 shards), 378 outcome
-            signatures, 357 CPU-s in total  (= ~25 s wall on 16 free cores)
+            signatures, ~350 CPU-s in total; 25 s wall measured with 16 workers on the idle machine
   thorough  67.6 M transitions, 26.9 M states (369 shards), 392 signatures,
-            10 650 CPU-s in total (= ~11 min wall on 16 free cores), worker RSS <= 0.7 GB
+            ~10 000 CPU-s in total (= ~11 min wall on 16 free cores; 22 min measured
+            with 10 workers), worker RSS <= 0.7 GB
 """
 import io
 import itertools
